@@ -644,3 +644,198 @@ theorem checkRowV_fuel (fks : List FkDecl) (hco : CascadeOnly fks) (u : Seen) :
         (fun d hd => (List.mem_filter.mp hd).1) h (by omega)
 
 end VibeProof.Dml
+
+namespace VibeProof.Dml
+open VibeProof
+
+/-! ### the repaired recursion keeps every foreign key (ranked graphs, CASCADE / NO ACTION) -/
+
+/-- entries of `in_progress` at tables of rank ≤ ρ are finished calls: nothing references them -/
+def SeenDone (fks : List FkDecl) (rank : Nat → Nat) (db : Db) (seen : Seen) (ρ : Nat) : Prop :=
+  ∀ p ∈ seen, rank p.1 ≤ ρ → NoRef fks db p.1 p.2
+
+def SpecV (fks : List FkDecl) (rank : Nat → Nat) (rec : Nat → Seen → Db → Row → Except CErr (Db × Seen)) : Prop :=
+  ∀ t seen db v db' seen', DbInv fks db → SeenDone fks rank db seen (rank t) → rec t seen db v = .ok (db', seen') →
+    DbInv fks db' ∧ Sub db' db ∧ NoRef fks db' t v ∧ SeenDone fks rank db' seen' (rank t) ∧
+    (∀ p ∈ seen, p ∈ seen') ∧ (∀ p ∈ seen', p ∈ seen ∨ rank p.1 ≤ rank t)
+
+theorem SeenDone.mono {fks : List FkDecl} {rank : Nat → Nat} {db db' : Db} {seen : Seen} {ρ : Nat}
+    (h : SeenDone fks rank db seen ρ) (hs : Sub db' db) : SeenDone fks rank db' seen ρ :=
+  fun p hp hr => (h p hp hr).mono hs
+
+theorem runVictimsV_post (fks : List FkDecl) (rank : Nat → Nat) (rec : Nat → Seen → Db → Row → Except CErr (Db × Seen))
+    (hrec : SpecV fks rank rec) (t : Nat) : ∀ (vs : List Row) (seen : Seen) (db db' : Db) (seen' : Seen),
+      DbInv fks db → SeenDone fks rank db seen (rank t) → runVictimsV (rec t) vs seen db = .ok (db', seen') →
+      DbInv fks db' ∧ Sub db' db ∧ (∀ v ∈ vs, NoRef fks db' t v) ∧ SeenDone fks rank db' seen' (rank t) ∧
+      (∀ p ∈ seen, p ∈ seen') ∧ (∀ p ∈ seen', p ∈ seen ∨ rank p.1 ≤ rank t) := by
+  intro vs
+  induction vs with
+  | nil =>
+    intro seen db db' seen' h hs hr
+    simp only [runVictimsV, Except.ok.injEq, Prod.mk.injEq] at hr
+    obtain ⟨rfl, rfl⟩ := hr
+    exact ⟨h, Sub.refl _, by simp, hs, fun _ hp => hp, fun _ hp => Or.inl hp⟩
+  | cons v vs ih =>
+    intro seen db db' seen' h hs hr
+    unfold runVictimsV at hr
+    split at hr
+    · simp at hr
+    · rename_i db1 seen1 h1
+      obtain ⟨a1, a2, a3, a4, a5, a6⟩ := hrec t seen db v db1 seen1 h hs h1
+      obtain ⟨b1, b2, b3, b4, b5, b6⟩ := ih seen1 db1 db' seen' a1 a4 hr
+      refine ⟨b1, b2.trans a2, ?_, b4, fun p hp => b5 p (a5 p hp), ?_⟩
+      · intro x hx
+        rcases List.mem_cons.mp hx with rfl | hx
+        · exact a3.mono b2
+        · exact b3 x hx
+      · intro p hp
+        rcases b6 p hp with h' | h'
+        · exact a6 p h'
+        · exact Or.inr h'
+
+theorem deleteVictimsV_post (fks : List FkDecl) (rank : Nat → Nat) (rec : Nat → Seen → Db → Row → Except CErr (Db × Seen))
+    (hrec : SpecV fks rank rec) (t : Nat) (victims : List Row) (seen : Seen) (db db' : Db) (seen' : Seen)
+    (h : DbInv fks db) (hs : SeenDone fks rank db seen (rank t))
+    (hr : deleteVictimsV (rec t) seen db t victims = .ok (db', seen')) :
+    DbInv fks db' ∧ Sub db' db ∧ (∀ r ∈ db' t, r ∉ victims) ∧ SeenDone fks rank db' seen' (rank t) ∧
+    (∀ p ∈ seen, p ∈ seen') ∧ (∀ p ∈ seen', p ∈ seen ∨ rank p.1 ≤ rank t) := by
+  unfold deleteVictimsV at hr
+  split at hr
+  · simp at hr
+  · rename_i db1 seen1 h1
+    obtain ⟨a1, a2, a3, a4, a5, a6⟩ := runVictimsV_post fks rank rec hrec t victims seen db db1 seen1 h hs h1
+    simp only [Except.ok.injEq, Prod.mk.injEq] at hr
+    obtain ⟨rfl, rfl⟩ := hr
+    have hsub1 : Sub (db1.set t ((db1 t).filter (fun r => !(victims.contains r)))) db1 := by
+      intro i r hr
+      simp only [Db.set] at hr
+      split at hr
+      · rename_i hi; subst hi; exact (List.mem_filter.mp hr).1
+      · exact hr
+    refine ⟨?_, hsub1.trans a2, ?_, a4.mono hsub1, a5, a6⟩
+    · intro d hd c hc hn
+      have hc1 : c ∈ db1 d.child := hsub1 _ c hc
+      obtain ⟨p, hp, hk⟩ := a1 d hd c hc1 hn
+      refine ⟨p, ?_, hk⟩
+      simp only [Db.set]
+      split
+      · rename_i hpt
+        rw [List.mem_filter]
+        refine ⟨by rw [← hpt]; exact hp, ?_⟩
+        simp only [Bool.not_eq_true', List.contains_eq_mem, decide_eq_false_iff_not]
+        intro hv
+        have := a3 p hv d hd hpt c hc1
+        rw [refers_of_key hn hk] at this
+        exact absurd this (by simp)
+      · exact hp
+    · intro r hr
+      simp only [Db.set, if_true, List.mem_filter, Bool.not_eq_true', List.contains_eq_mem,
+        decide_eq_false_iff_not] at hr
+      exact hr.2
+
+/-- invariant of the action loop of a call for `(t0, row)`: every other entry of rank ≤ rank t0 is done -/
+def ActsInv (fks : List FkDecl) (rank : Nat → Nat) (t0 : Nat) (row : Row) (db : Db) (seen : Seen) : Prop :=
+  ∀ p ∈ seen, p ≠ (t0, row) → rank p.1 ≤ rank t0 → NoRef fks db p.1 p.2
+
+theorem runActsV_post (fks : List FkDecl) (hco : CascadeOnly fks) (rank : Nat → Nat) (hrk : Ranked fks rank)
+    (rec : Nat → Seen → Db → Row → Except CErr (Db × Seen)) (hrec : SpecV fks rank rec) (t0 : Nat) (row : Row) :
+    ∀ (ds : List FkDecl) (seen : Seen) (db db' : Db) (seen' : Seen), (∀ d ∈ ds, d ∈ fks ∧ d.parent = t0) →
+      DbInv fks db → ActsInv fks rank t0 row db seen → runActsV rec row ds seen db = .ok (db', seen') →
+      DbInv fks db' ∧ Sub db' db ∧ (∀ d ∈ ds, ∀ c ∈ db' d.child, d.fk.refers (keyOf d.pcols row) c = false) ∧
+      ActsInv fks rank t0 row db' seen' ∧ (∀ p ∈ seen, p ∈ seen') ∧ (∀ p ∈ seen', p ∈ seen ∨ rank p.1 ≤ rank t0) := by
+  intro ds
+  induction ds with
+  | nil =>
+    intro seen db db' seen' _ h hk hr
+    simp only [runActsV, Except.ok.injEq, Prod.mk.injEq] at hr
+    obtain ⟨rfl, rfl⟩ := hr
+    exact ⟨h, Sub.refl _, by simp, hk, fun _ hp => hp, fun _ hp => Or.inl hp⟩
+  | cons d ds ih =>
+    intro seen db db' seen' hmem h hk hr
+    unfold runActsV at hr
+    split at hr
+    · simp at hr
+    · rename_i db1 seen1 h1
+      obtain ⟨hd, hp⟩ := hmem d List.mem_cons_self
+      have hlt : rank d.child < rank t0 := hp ▸ hrk d hd
+      have hstep : DbInv fks db1 ∧ Sub db1 db ∧ (∀ c ∈ db1 d.child, d.fk.refers (keyOf d.pcols row) c = false) ∧
+          ActsInv fks rank t0 row db1 seen1 ∧ (∀ p ∈ seen, p ∈ seen1) ∧ (∀ p ∈ seen1, p ∈ seen ∨ rank p.1 ≤ rank t0) := by
+        unfold applyActV at h1
+        simp only [] at h1
+        split at h1
+        · simp at h1
+        · have hsd : SeenDone fks rank db seen (rank d.child) := by
+            intro p hpm hr'
+            apply hk p hpm
+            · intro heq; rw [heq] at hr'; simp only at hr'; omega
+            · omega
+          obtain ⟨a1, a2, a3, a4, a5, a6⟩ := deleteVictimsV_post fks rank rec hrec d.child _ seen db db1 seen1 h hsd h1
+          refine ⟨a1, a2, ?_, ?_, a5, ?_⟩
+          · intro c hc
+            cases hr' : d.fk.refers (keyOf d.pcols row) c with
+            | false => rfl
+            | true => exact absurd (List.mem_filter.mpr ⟨a2 _ c hc, hr'⟩) (a3 c hc)
+          · intro p hpm hne hr'
+            rcases a6 p hpm with h' | h'
+            · exact (hk p h' hne hr').mono a2
+            · exact a4 p hpm h'
+          · intro p hpm
+            rcases a6 p hpm with h' | h'
+            · exact Or.inl h'
+            · exact Or.inr (by omega)
+        · rename_i hsn; exact absurd hsn (hco d hd)
+      obtain ⟨a1, a2, a3, a4, a5, a6⟩ := hstep
+      obtain ⟨b1, b2, b3, b4, b5, b6⟩ := ih seen1 db1 db' seen' (fun x hx => hmem x (List.mem_cons_of_mem _ hx)) a1 a4 hr
+      refine ⟨b1, b2.trans a2, ?_, b4, fun p hp => b5 p (a5 p hp), ?_⟩
+      · intro x hx c hc
+        rcases List.mem_cons.mp hx with rfl | hx
+        · exact a3 c (b2 _ c hc)
+        · exact b3 x hx c hc
+      · intro p hpm
+        rcases b6 p hpm with h' | h'
+        · exact a6 p h'
+        · exact Or.inr h'
+
+theorem checkRowV_spec (fks : List FkDecl) (hco : CascadeOnly fks) (rank : Nat → Nat) (hrk : Ranked fks rank) :
+    ∀ (fuel : Nat), SpecV fks rank (fun t seen db v => checkRowV fks fuel seen db t v) := by
+  intro fuel
+  induction fuel with
+  | zero => intro t seen db v db' seen' _ _ hr; simp [checkRowV] at hr
+  | succ f ih =>
+    intro t seen db row db' seen' h hs hr
+    simp only [checkRowV] at hr
+    split at hr
+    · rename_i hc
+      simp only [Except.ok.injEq, Prod.mk.injEq] at hr
+      obtain ⟨rfl, rfl⟩ := hr
+      have hmem : (t, row) ∈ seen := by simpa using hc
+      exact ⟨h, Sub.refl _, hs (t, row) hmem (Nat.le_refl _), hs, fun _ hp => hp, fun _ hp => Or.inl hp⟩
+    · have hk : ActsInv fks rank t row db ((t, row) :: seen) := by
+        intro p hpm hne hr'
+        rcases List.mem_cons.mp hpm with h' | h'
+        · exact absurd h' hne
+        · exact hs p h' hr'
+      obtain ⟨a1, a2, a3, a4, a5, a6⟩ := runActsV_post fks hco rank hrk _ ih t row _ _ db db' seen'
+        (fun d hd => by
+          obtain ⟨h1, h2⟩ := List.mem_filter.mp hd
+          simp only [Bool.and_eq_true, beq_iff_eq] at h2
+          exact ⟨h1, h2.1⟩) h hk hr
+      have hnoref : NoRef fks db' t row := by
+        intro d hd hp c hc
+        by_cases hany : (db d.child).any (d.fk.refers (keyOf d.pcols row)) = true
+        · exact a3 d (List.mem_filter.mpr ⟨hd, by simp [hp, hany]⟩) c hc
+        · simp only [List.any_eq_true, not_exists, not_and, Bool.not_eq_true] at hany
+          exact hany c (a2 _ c hc)
+      refine ⟨a1, a2, hnoref, ?_, fun p hp => a5 p (List.mem_cons_of_mem _ hp), ?_⟩
+      · intro p hpm hr'
+        by_cases hne : p = (t, row)
+        · subst hne; exact hnoref
+        · exact a4 p hpm hne hr'
+      · intro p hpm
+        rcases a6 p hpm with h' | h'
+        · rcases List.mem_cons.mp h' with h'' | h''
+          · right; rw [h'']; exact Nat.le_refl _
+          · exact Or.inl h''
+        · exact Or.inr h'
+
+end VibeProof.Dml
